@@ -80,6 +80,10 @@ def describe(tier):
                 else "sex x reference sex x X bins {40,100,400} x Y bins {0,10,40} x sd {0.01,0.1,0.3} x weights {none,saw-tooth} x naming x autosome bins {200,1000} x 6 noise arrangements; "
                 "PAR genome with 10 PAR-X bins on a sub-grid; 48 noise-free samples (sd 0, all three weight patterns)"
             ),
+            "sex_history": "sex x reference sex x naming x Y bins {10, 0} (200 autosome bins, 40 X bins, sd 0.05): every word of <= "
+            + ("3" if t else "2")
+            + " steps over {keep, copy, mask a subset, replace log2 by the other sex's profile in place, the same on a copy} x {guess_xx, do_sex, compare_sex_chromosomes, shift_xx with the sex inferred}, "
+            "all on one object lineage, no deduplication",
             "cli": "sex [-y] on 16 written samples; call --center {median,mean,biweight,mode} [--drop-low-coverage] [--diploid-parx-genome] -m none on 6 written tables",
         },
         "alphabet": {
@@ -283,9 +287,25 @@ def cli_cases(tier):
         yield {"check": "cli-call-center", **tb}
 
 
+def history_cases(tier):
+    """Asking again: every word of <= 2 (thorough <= 3) steps (change to the sample, question) on one sample object."""
+    depth = 3 if tier == "thorough" else 2
+    for ny in (10, 0):
+        for style in ("", "chr"):
+            for male_ref in (False, True):
+                for sex in ("female", "male"):
+                    base = {"check": "sex-history", "sex": sex, "male_ref": male_ref, "n_auto": 200, "n_x": 40, "n_y": ny, "sd": 0.05, "weights": "none", "style": style, "depth": depth}
+                    if depth < 3:
+                        yield base
+                    else:
+                        for first in range(len(HIST_STEPS)):
+                            yield dict(base, first=first)
+
+
 def cases(tier):
     yield from center_cases(tier)
     yield from sex_cases(tier)
+    yield from history_cases(tier)
     yield from cli_cases(tier)
 
 
@@ -295,6 +315,8 @@ def run(case, ctx):
         run_center(case, ctx)
     elif kind == "sex":
         run_sex(case, ctx)
+    elif kind == "sex-history":
+        run_sex_history(case, ctx)
     elif kind == "cli-sex":
         run_cli_sex(case, ctx)
     elif kind == "cli-call-center":
@@ -743,6 +765,93 @@ def run_sex(case, ctx):
 
 
 # =============================================================================================
+# sex inference along a history of questions and changes on one sample object (explicit sequences, no dedup)
+# =============================================================================================
+HIST_CHANGES = ("keep", "copy", "subset", "relevel", "copy+relevel")
+HIST_QUESTIONS = ("guess_xx", "do_sex", "compare_sex_chromosomes", "shift_xx(sex inferred)")
+HIST_STEPS = [(c, q) for c in HIST_CHANGES for q in HIST_QUESTIONS]
+
+
+def run_sex_history(case, ctx):
+    """The sample object is asked for its sex, changed (copied, masked, or its log2 column replaced by the profile of
+    the other sex on the same bins, in place or on a copy) and asked again; every answer must be the sex whose
+    expected X / Y levels the bins hold *now*."""
+    male_ref, style = case["male_ref"], case["style"]
+    xlab, ylab = C.sex_labels(style)
+    other = {"female": "male", "male": "female"}
+    profiles = {}
+    for sx in ("female", "male"):
+        rows, _noise, cna = build_sex_sample(dict(case, sex=sx), [0, 0])
+        profiles[sx] = (rows, np.asarray([float(r[3]) for r in rows]))
+    rows0 = profiles[case["sex"]][0]
+    cls = np.asarray(["auto" if C.is_autosome_name(r[0]) else ("x" if r[0] == xlab else "y") for r in rows0])
+    margin = 3.0 * case["sd"] / math.sqrt(case["n_x"]) + TOL
+    words = itertools.chain.from_iterable(itertools.product(range(len(HIST_STEPS)), repeat=d) for d in range(1, case["depth"] + 1))
+    for word in words:
+        if "first" in case and word[0] != case["first"]:
+            continue
+        cur = build_cna(rows0)
+        idx = np.arange(len(rows0))  # positions of the current rows in the full table
+        sex = case["sex"]
+        told = []
+        for pos, si in enumerate(word):
+            change, question = HIST_STEPS[si]
+            if change == "copy":
+                cur = cur.copy()
+            elif change == "subset":
+                keep = np.ones(len(idx), dtype=bool)
+                keep[np.flatnonzero(cls[idx] == "auto")[::7]] = False
+                cur = cur[keep]
+                idx = idx[keep]
+            elif change in ("relevel", "copy+relevel"):
+                if change == "copy+relevel":
+                    cur = cur.copy()
+                sex = other[sex]
+                cur["log2"] = profiles[sex][1][idx]
+            is_female = sex == "female"
+            told.append(f"{change}:{question}")
+            sub = {"history": list(told)}
+            fk = f"after:{'+'.join(sorted({HIST_STEPS[w][0] for w in word[: pos + 1]} - {'keep'})) or 'nothing'}/asked-before:{'yes' if pos else 'no'}"
+            if question == "guess_xx":
+                g = ctx.call(cur.guess_xx, male_ref)
+                ok = (not isinstance(g, Exc)) and g is not None and bool(g) == is_female
+                obs = g if isinstance(g, Exc) or g is None else bool(g)
+            elif question == "do_sex":
+                t = ctx.call(commands.do_sex, [cur], male_ref, None)
+                obs = t if isinstance(t, Exc) else ([str(v) for v in t["sex"]] if "sex" in t else None)
+                ok = obs == ["Female" if is_female else "Male"]
+            elif question == "compare_sex_chromosomes":
+                r = ctx.call(cur.compare_sex_chromosomes, male_ref)
+                obs = r if isinstance(r, Exc) else (None if r[0] is None else bool(r[0]))
+                ok = (not isinstance(r, Exc)) and r[0] is not None and bool(r[0]) == (not is_female)
+            else:
+                sh = ctx.call(cur.shift_xx, male_ref)
+                if isinstance(sh, Exc) or len(sh) != len(idx):
+                    obs, ok = (sh if isinstance(sh, Exc) else len(sh)), False
+                else:
+                    sv = np.asarray(sh.data["log2"].values, dtype=float)
+                    mx = S.median([float(v) for v in sv[cls[idx] == "x"]])
+                    ma = S.median([float(v) for v in sv[cls[idx] == "auto"]])
+                    obs, ok = {"median_x": mx, "median_autosomes": ma}, abs(mx - ma) <= margin
+            ctx.trace()
+            if not ok:
+                ctx.violation(
+                    "the sex inferred from an array is the sex whose expected chrX / chrY levels its bins hold now, whatever was asked or changed before",
+                    f"sex-history/{question}/{fk}",
+                    expected=sex,
+                    observed=obs,
+                    sub=sub,
+                )
+                break
+        ctx.outcome((case["sex"], male_ref, word, sex))
+        ctx.state(("sex-history", {k: v for k, v in case.items() if k not in ("depth", "first")}, word), nontrivial=any(HIST_STEPS[w][0].endswith("relevel") for w in word))
+        ctx.stratum(f"sex-history: words of {len(word)} step(s)")
+        if len(word) > 1 and any(HIST_STEPS[w][0].endswith("relevel") for w in word[1:]):
+            ctx.stratum("sex-history: asked, then the bins changed sex, then asked again")
+    ctx.sample("sex-history", {k: v for k, v in case.items()})
+
+
+# =============================================================================================
 # command line
 # =============================================================================================
 def _scratch():
@@ -856,11 +965,13 @@ MANIFEST = {
     "24 chromosomes) under every estimator x by_chrom x skip_low x PAR genome; the result must differ from the input by one constant "
     "and an independent two-level estimator of the autosomal (+PAR-X, -null) output bins must be zero. Sex: every synthetic sample of "
     "the grid sex x reference sex x bins on X / Y / autosomes x noise sd x weights x naming x noise arrangement; the inferred sex, the "
-    "report, the X adjustment and the flat expectation are compared with the constructed truth. The file-based `sex` and "
+    "report, the X adjustment and the flat expectation are compared with the constructed truth; and every short history of questions "
+    "and changes (copy, mask, log2 column replaced by the other sex's profile, in place or on a copy) on one object lineage must "
+    "answer for the bins as they are now. The file-based `sex` and "
     "`call --center` commands are run on a few written tables for the option wiring. Exhaustive inside the bound, nothing sampled.",
     "note": "The noise is not random: normal quantiles arranged by affine permutations; the sex half is claimed over that alphabet "
     "only. Trusted: numpy, scipy gaussian_kde / median_test, NormalDist.inv_cdf; the reference model (models/centering.py, "
     "cross-examined in selftest/centering.py). Open: tie choice of the kernel-density mode, biweight stopping at exactly 1e-3, tables "
     "whose autosome bins are all null, bins straddling a PAR boundary, PAR-X bins in shift_xx / expect_flat_log2.",
-    "technique": "exhaustive enumeration of bin tables x configurations and of synthetic samples over a deterministic noise alphabet on the real code, independent estimator model as oracle",
+    "technique": "exhaustive enumeration of bin tables x configurations and of synthetic samples over a deterministic noise alphabet on the real code, independent estimator model as oracle; stateless enumeration of all question/change histories up to depth 2 (thorough 3) on one object lineage",
 }
